@@ -96,5 +96,8 @@ fn main() {
         rep.known_hits.len(),
         rep.started.elapsed().as_secs_f64()
     );
-    std::process::exit(if rep.violations.is_empty() { 0 } else { 1 });
+    if !rep.violations.is_empty() {
+        std::process::exit(1);
+    }
+    std::process::exit(if rep.infra_errors > 0 { 2 } else { 0 });
 }
